@@ -335,6 +335,85 @@ def cmd_selftest(a):
     return 1 if bad else 0
 
 
+def cmd_reach(a):
+    """Which executable lines of the files a property is anchored in does its check execute (both frameworks merged)?
+    Writes reach/<id>.json and prints, per anchor file, the functions entered but not fully executed."""
+    from sim.reach import executable_lines
+    prop = a.property.upper()
+    everything = prop == "ALL"
+    props = sorted(META) if everything else [prop]
+    anchors = {}
+    with open(os.path.join(HERE, "properties.jsonl")) as f:
+        for line in f:
+            d = json.loads(line)
+            anchors[d["id"]] = [x for x in d["anchors"]["files"] if x.endswith(".py")]
+    tmp = os.path.join(HERE, ".tmp", "reach-%s-%d" % (prop, os.getpid()))
+    os.makedirs(tmp, exist_ok=True)
+    procs = []
+    for pr in props:
+        for fw in sorted(set(v[0] for v in META[pr]["variants"])):
+            for part in range(a.parts):
+                out = os.path.join(tmp, "%s-%s-%d.json" % (pr, fw, part))
+                args = {"prop": pr, "fw": fw, "n": a.n // a.parts, "seed": 1000 + part, "files": anchors[pr], "out": out,
+                        "all_files": everything}
+                cmd = [PY, "-u", "-m", "sim.reach", json.dumps(args)]
+                procs.append((fw, out, subprocess.Popen(cmd, cwd=HERE, env=worker_env("1"), stdout=subprocess.DEVNULL, stderr=subprocess.PIPE)))
+    hit = {}
+    for fw, out, p in procs:
+        _, err = p.communicate(timeout=3600)
+        if p.returncode != 0:
+            print("HARNESS-ERROR: reach worker %s failed:\n%s" % (fw, err.decode()[-2000:]))
+            return 2
+        for rel, d in json.load(open(out)).items():
+            hit.setdefault(rel, {}).setdefault(fw, set()).update(d["hit"])
+    report = {"property": prop, "runs_per_framework": a.n, "repo_rev": repo_rev(), "files": {},
+              "note": "ALL = union over the checks of all claimed properties, every autobahn source file any of them executed" if everything else
+              "the files this property is anchored in"}
+    src_root = os.path.join(repo_dir(), "src")
+    for rel in sorted(hit):
+        funcs = executable_lines(os.path.join(src_root, rel))
+        allhit = set().union(*hit[rel].values())
+        frep = {}
+        tot = got = 0
+        for q, lines in sorted(funcs.items()):
+            if q == "<module>":
+                continue
+            h = lines & allhit
+            if not h:
+                continue  # never entered: a feature outside this check (listed in the JSON only as a count)
+            tot += len(lines)
+            got += len(h)
+            if h != lines:
+                frep[q] = {"executable": len(lines), "hit": len(h), "unreached": sorted(lines - h)}
+        entered = sum(1 for q, l in funcs.items() if q != "<module>" and l & allhit)
+        report["files"][rel] = {"functions": len(funcs) - 1, "functions_entered": entered, "lines_in_entered_functions": tot,
+                                "lines_hit": got, "partly_executed": frep,
+                                "hit_only_under": {fw: len(s - set().union(*[o for f2, o in hit[rel].items() if f2 != fw])) for fw, s in hit[rel].items()}}
+        print("%s %s: %d of %d functions entered; %d of %d lines in them executed" % (prop, rel, entered, len(funcs) - 1, got, tot))
+        if a.verbose:
+            for q, d in sorted(frep.items(), key=lambda kv: -len(kv[1]["unreached"]))[:a.verbose]:
+                print("    %-60s %3d/%3d  unreached: %s" % (q, d["hit"], d["executable"], _ranges(d["unreached"])))
+    os.makedirs(os.path.join(OUT, "reach"), exist_ok=True)
+    with open(os.path.join(OUT, "reach", "%s.json" % prop), "w") as f:
+        json.dump(report, f, indent=1, sort_keys=True)
+    try:
+        import shutil
+        shutil.rmtree(tmp)
+    except Exception:
+        pass
+    return 0
+
+
+def _ranges(nums):
+    out = []
+    for n in nums:
+        if out and n == out[-1][1] + 1:
+            out[-1][1] = n
+        else:
+            out.append([n, n])
+    return ",".join("%d" % a if a == b else "%d-%d" % (a, b) for a, b in out)
+
+
 def main():
     ap = argparse.ArgumentParser()
     sub = ap.add_subparsers(dest="cmd", required=True)
@@ -354,7 +433,14 @@ def main():
     s.add_argument("--props")
     s.add_argument("--n", type=int, default=60)
     s.add_argument("--seed", type=int, default=7)
+    rc_ = sub.add_parser("reach")
+    rc_.add_argument("property")
+    rc_.add_argument("--n", type=int, default=4000)
+    rc_.add_argument("--parts", type=int, default=4)
+    rc_.add_argument("--verbose", type=int, default=0)
     a = ap.parse_args()
+    if a.cmd == "reach":
+        return cmd_reach(a)
     if a.cmd == "check":
         return cmd_check(a)
     if a.cmd == "replay":
